@@ -64,6 +64,10 @@ struct FVis {
 		// an array assigned a NAMED read-only view of its own elements with other extents (a sub-block of itself): the source must be read before the old block is released
 		op("assign-from-own-sub-block"); if(C.size() >= 2) { multi::array<int, D, Alloc<int>> Q(C); auto const& sub = std::as_const(Q).sliced(1, Q.size()); Q = sub; for(int e : Q.elements()) mix(std::uint64_t(e)); mix(std::uint64_t(Q.size())); mix(std::uint64_t(Q == C.sliced(1, C.size())));
 			multi::array<int, D, Alloc<int>> Q2(C); multi::array_ref<int, D, typename multi::array<int, D, Alloc<int>>::element_ptr> R2(Q2.sliced(0, Q2.size() - 1).extensions(), Q2.base()); Q2 = R2; mix(std::uint64_t(Q2.size())); for(int e : Q2.elements()) mix(std::uint64_t(e)); count("op:assign-from-own-sub-block"); }
+		// the 1-D member data(): the user's pointer type (never a raw address), usable with that type's own arithmetic, and obtainable from arrays that own nothing without a dereference
+		if constexpr(D == 1) { op("data()"); using AP = typename multi::array<int, 1, Alloc<int>>::element_ptr; static_assert(std::is_same_v<std::decay_t<decltype(C.data())>, AP>, "array<T,1,A>::data() must be the allocator's pointer type");
+			for(L i2 = 0; i2 < C.size(); ++i2) mix(std::uint64_t(*(C.data() + i2))); mix(std::uint64_t(*(std::as_const(C).data() + (C.size() - 1))));
+			multi::array<int, 1, Alloc<int>> Z3; auto p0 = Z3.data(); mix(std::uint64_t(p0 == AP{})); multi::array<int, 1, Alloc<int>> Z4(C); Z4.clear(); auto p1 = Z4.data(); (void)p1; multi::array<int, 1, Alloc<int>> Z5(C); multi::array<int, 1, Alloc<int>> Z6(std::move(Z5)); auto p2 = Z5.data(); (void)p2; mix(std::uint64_t(Z6.size())); count("op:data()"); }
 		// non-trivially destructible elements, including arrays that are (or become) empty
 		op("owning<string>");
 		{ using SA = multi::array<std::string, D, Alloc<std::string>>; SA S(v.extensions()); { L q = 0; for(auto& e : S.elements()) e = std::string(18, 'x') + std::to_string(q++); } SA S2(S); SA S3(S.rotated()); for(auto const& e : S3.elements()) mixs(e);
